@@ -148,6 +148,13 @@ func (t *Transaction) Validate() error {
 	} else if t.Input == (TypedAddressAmountTuple{}) { // TODO: is there a better way to check for zero value struct?
 		return fmt.Errorf("invalid input: empty")
 	}
+	// An input object without a "type" key unmarshals to the invalid ticker
+	// (and can be padded with an unknown key to pass the JSON length check).
+	// No balance column exists for it, so applying such a transaction fails
+	// the block on every attempt instead of rejecting the entry.
+	if t.Input.Type <= PTickerInvalid || t.Input.Type >= PTickerMax {
+		return fmt.Errorf("invalid input: unknown token type")
+	}
 	if len(t.Transfers) == 0 && t.Conversion == PTickerInvalid {
 		return fmt.Errorf("at least one transfer or exactly one conversion type required")
 	} else if 0 < len(t.Transfers) && PTickerInvalid < t.Conversion {
